@@ -125,6 +125,9 @@ def run_property(prop, fn, tier='quick', seed=0, replay=None, meta=None):
     try:
         ctx = Ctx(prop, tier, seed)
         fn(ctx)
+        if tier == 'thorough':
+            from . import sweeps
+            sweeps.run(ctx, prop)
     except (AnalysisError, Unrecognised) as e:
         print(f'ANALYSIS-ERROR property={prop}: {e}')
         _write_evidence(prop, tier, seed, None, time.time() - t0, meta, error=str(e))
@@ -173,6 +176,8 @@ def run_property(prop, fn, tier='quick', seed=0, replay=None, meta=None):
                 rc = 1
         return rc
 
+    if tier == 'thorough' and replay is None and not os.environ.get('VERIF_SELFTEST'):
+        ctx.extra['checker_validation'] = _checker_validation(prop)
     wall = time.time() - t0
     n_fun = len(ctx.A._cache)
     ctx.units['functions_evaluated'] = n_fun
@@ -207,6 +212,48 @@ def run_property(prop, fn, tier='quick', seed=0, replay=None, meta=None):
     _write_evidence(prop, tier, seed, ctx, wall, meta, violations=violations,
                     known_hits=known_hits, unrec=unrec)
     return rc
+
+
+def _checker_validation(prop):
+    """Thorough tier: exercise the *checker* on scratch copies of the current tree
+    (hand-written catalogue + automatic mutation sweep).  The outcome is recorded in
+    the evidence and printed; it never turns the property verdict into a violation."""
+    import subprocess
+    import sys
+    import tempfile
+    out = {}
+    tmpd = tempfile.mkdtemp(prefix='cverif-validation-')
+    try:
+        env = dict(os.environ, VERIF_SELFTEST='1')
+        env.pop('VERIF_EVIDENCE_DIR', None)
+        j1 = os.path.join(tmpd, 'catalogue.json')
+        r = subprocess.run([sys.executable, '-B', os.path.join(VERIF_DIR, 'selftest', 'run.py'), prop, '--json', j1],
+                           cwd=VERIF_DIR, env=env, capture_output=True, text=True, timeout=1500)
+        try:
+            rows = json.load(open(j1))
+            out['catalogue'] = {
+                'mutants': sum(1 for x in rows if x['kind'] == 'mutant'),
+                'mutants_reported': sum(1 for x in rows if x['kind'] == 'mutant' and x['status'] == 'OK'),
+                'refactors': sum(1 for x in rows if x['kind'] != 'mutant'),
+                'refactors_silent': sum(1 for x in rows if x['kind'] != 'mutant' and x['status'] == 'OK'),
+                'not_ok': [f"{x['status']}: {x['name']}" for x in rows if x['status'] != 'OK'],
+            }
+        except (OSError, ValueError):
+            out['catalogue'] = {'error': (r.stdout + r.stderr)[-300:]}
+        j2 = os.path.join(tmpd, 'auto.json')
+        r = subprocess.run([sys.executable, '-B', os.path.join(VERIF_DIR, 'selftest', 'automutate.py'), prop, '--max', '40',
+                            '--json', j2], cwd=VERIF_DIR, env=env, capture_output=True, text=True, timeout=3000)
+        try:
+            out['automatic_mutation_sweep'] = json.load(open(j2)).get(prop, {})
+        except (OSError, ValueError):
+            out['automatic_mutation_sweep'] = {'error': (r.stdout + r.stderr)[-300:]}
+    except Exception as e:      # pragma: no cover - validation must never break the check
+        out['error'] = repr(e)
+    finally:
+        import shutil
+        shutil.rmtree(tmpd, ignore_errors=True)
+    print(f'[{prop}] checker validation: {json.dumps(out)[:600]}')
+    return out
 
 
 def _write_evidence(prop, tier, seed, ctx, wall, meta, violations=(), known_hits=(), unrec=(),
